@@ -419,11 +419,32 @@ def _assigned(f, l):
 
 
 def _local_tree(prog, f, l, flds, depth, seen, inline):
+    global _PATH
     defs = f.local_defs().get(l) or []
-    if _PATH is not None and _PATH[0] is f and len(defs) > 1:
-        on = [d_ for d_ in defs if d_[0] in _PATH[1]]
+    saved = None
+    if _PATH is not None and _PATH[0] is f and defs:
+        # concrete path: the value is the last definition on the path *before the point of use* (position bound),
+        # so `w = w * d` resolves the right-hand w to the earlier definition instead of to itself
+        blocks = _PATH[1]
+        bound = _PATH[2] if len(_PATH) > 2 else (len(blocks), 0)
+
+        def pos(d_):
+            return (blocks.index(d_[0]), 10 ** 6 if d_[1] == "T" else d_[1])
+        on = [d_ for d_ in defs if d_[0] in blocks and pos(d_) < bound]
         if on:
-            defs = [max(on, key=lambda d_: _PATH[1].index(d_[0]))]
+            d0 = max(on, key=pos)
+            defs = [d0]
+            saved = _PATH
+            _PATH = (f, blocks, pos(d0))
+            seen = seen - {l}
+    try:
+        return _local_tree_defs(prog, f, l, flds, depth, seen, inline, defs)
+    finally:
+        if saved is not None:
+            _PATH = saved
+
+
+def _local_tree_defs(prog, f, l, flds, depth, seen, inline, defs):
     if not defs:
         return "p%d%s" % (l, _sfx(flds)) if 1 <= l <= f.argc else "undef"
     if l in seen:
@@ -502,7 +523,12 @@ def rvalue_tree(prog, f, v, flds=(), depth=0, seen=frozenset(), inline=0):
                 return "closure{%s}" % body
         return "%s{%s}" % (nm, ",".join(caps))
     if r == "discr":
-        return "discr(%s)" % expr_tree(prog, f, {"c": v["pl"]}, depth + 1, seen, inline)
+        # keep the Option/Result/ControlFlow payload projections that expr_tree drops, so that the discriminant of
+        # `x?` (ControlFlow) and of its payload (e.g. an Option inside) are different conditions
+        pl = v["pl"]
+        pt = f.ty(pl["t"]) if "t" in pl else f.local_ty(pl["l"])
+        tag = (pt.get("adt") or pt.get("s") or "?").split("<")[0].split("::")[-1]
+        return "discr(%s)@%s" % (expr_tree(prog, f, {"c": pl}, depth + 1, seen, inline), tag)
     return r
 
 
@@ -657,6 +683,45 @@ def _neg_cond(c):
     return "not(%s)" % c
 
 
+def _path_cond(prog, f, blocks, b, arm):
+    """switch condition evaluated on the concrete path prefix `blocks` (ending in b): None = trivially true, False = infeasible"""
+    global _PATH
+    saved = _PATH
+    _PATH = (f, blocks, (len(blocks) - 1, 10 ** 6))
+    try:
+        c = switch_cond(prog, f, b, arm)
+    finally:
+        _PATH = saved
+    if c in ("1", "not(0)"):
+        return None
+    if c in ("0", "not(1)"):
+        return False
+    m = re.fullmatch(r"(-?\d+) == (-?\d+)", c)
+    if m:
+        return None if m.group(1) == m.group(2) else False
+    m = re.fullmatch(r"(-?\d+) notin \[(.*)\]", c)
+    if m:
+        return False if int(m.group(1)) in [int(x) for x in m.group(2).split(",") if x.strip()] else None
+    return c
+
+
+def _discr_conflict(cs):
+    """'X == a' together with 'X == b' (a != b) or with 'X notin [.. a ..]'"""
+    eqs, nots = {}, {}
+    for c in cs:
+        m = re.fullmatch(r"(.+) == (-?\d+)", c)
+        if m:
+            eqs.setdefault(m.group(1), set()).add(int(m.group(2)))
+            continue
+        m = re.fullmatch(r"(.+) notin \[(.*)\]", c)
+        if m:
+            nots.setdefault(m.group(1), set()).update(int(x) for x in m.group(2).split(",") if x.strip())
+    for k, v in eqs.items():
+        if len(v) > 1 or (v & nots.get(k, set())):
+            return True
+    return False
+
+
 def bool_paths(prog, f, limit=256):
     """for a small loop-free bool function: [(sorted conds, return tree)] for every entry->return path"""
     out = []
@@ -682,7 +747,7 @@ def bool_paths(prog, f, limit=256):
         blocks = blocks + [b]
         if t["k"] == "return":
             cs = set(conds)
-            if any(_neg_cond(c) in cs for c in cs):
+            if any(_neg_cond(c) in cs for c in cs) or _discr_conflict(cs):
                 return          # contradictory conditions: infeasible path
             global _PATH
             _PATH = (f, blocks)
@@ -692,9 +757,11 @@ def bool_paths(prog, f, limit=256):
                 _PATH = None
             return
         if t["k"] == "switch":
-            for a, tgt in t["arms"]:
-                walk(tgt, conds + [switch_cond(prog, f, b, int(a))], blocks, seen | {b})
-            walk(t["else"], conds + [switch_cond(prog, f, b, "else")], blocks, seen | {b})
+            for a, tgt in list(t["arms"]) + [("else", t["else"])]:
+                c = _path_cond(prog, f, blocks, b, a if a == "else" else int(a))
+                if c is False:
+                    continue
+                walk(tgt, conds + ([c] if c else []), blocks, seen | {b})
             return
         nx = term_succ_normal(t)
         for n in nx:
@@ -754,14 +821,14 @@ def store_trees(prog, f, inline=0):
     return {k: sorted(v) for k, v in out.items()}
 
 
-def effect_paths(prog, f, limit=256, inline=0):
+def effect_paths(prog, f, limit=256, inline=0, probes=None):
     """for a small loop-free function: [(sorted conds, return tree, {place: stored tree})] per feasible entry->return path"""
     out = []
 
     def finish(blocks, conds):
         global _PATH
         cs = set(conds)
-        if any(_neg_cond(c) in cs for c in cs):
+        if any(_neg_cond(c) in cs for c in cs) or _discr_conflict(cs):
             return
         _PATH = (f, blocks)
         try:
@@ -782,6 +849,12 @@ def effect_paths(prog, f, limit=256, inline=0):
                 if t["k"] == "call" and t["dest"]["l"] == 0 and not t["dest"].get("p"):
                     ci = f.dinfo(t["res"]) if t.get("res") is not None else (f.dinfo(t["raw"]) if "raw" in t else None)
                     ret = mk_call(ci["name"] if ci else "indirect", [expr_tree(prog, f, a, inline=inline) for a in t["args"]])
+            if probes:
+                for nm_, (pb, po) in probes.items():
+                    if pb in blocks:
+                        _PATH = (f, blocks, (blocks.index(pb), 10 ** 6))
+                        stores["?" + nm_] = expr_tree(prog, f, po, inline=inline)
+                        _PATH = (f, blocks)
             out.append((sorted(cs), ret, stores))
         finally:
             _PATH = None
@@ -795,9 +868,11 @@ def effect_paths(prog, f, limit=256, inline=0):
             finish(blocks, conds)
             return
         if t["k"] == "switch":
-            for a, tgt in t["arms"]:
-                walk(tgt, conds + [switch_cond(prog, f, b, int(a))], blocks, seen | {b})
-            walk(t["else"], conds + [switch_cond(prog, f, b, "else")], blocks, seen | {b})
+            for a, tgt in list(t["arms"]) + [("else", t["else"])]:
+                c = _path_cond(prog, f, blocks, b, a if a == "else" else int(a))
+                if c is False:
+                    continue
+                walk(tgt, conds + ([c] if c else []), blocks, seen | {b})
             return
         for n in term_succ_normal(t):
             walk(n, conds, blocks, seen | {b})
@@ -860,3 +935,15 @@ def check_full_scan(ctx, rule, construct, f, iter_re, what, min_loops=1):
     bad = [x for c in loops for x in loop_early_exits(prog, f, c.block)]
     ctx.inst(rule, construct, len(loops) >= min_loops and not bad, "%s: the scan is left only when exhausted or on an error (no element is skipped by an early exit)" % what,
              ["%s leaves the loop at %s" % (c_, f.bloc(u)) for u, v, c_ in bad] or "%d loop(s)" % len(loops), f.loc(f.raw["span"]))
+
+
+class Ordinals:
+    """stable construct keys for several sites of one kind inside one function: base#1, base#2 ... in block order
+    (never line numbers: unrelated edits above a site must not change its key)"""
+
+    def __init__(self):
+        self.n = {}
+
+    def key(self, base):
+        self.n[base] = self.n.get(base, 0) + 1
+        return "%s#%d" % (base, self.n[base])
